@@ -186,6 +186,24 @@ func (o *ExpressionOptimizer) tryOptimizeBinaryOpExecute(e *BinaryOpExpr) (Expre
 	return e, false
 }
 
+func hasAggrFuncCall(expr Expression) bool {
+	found := false
+	expr.Walk(func(e Expression) bool {
+		switch e.(type) {
+		case *FunctionCallExpr:
+			if IsAggrFuncExpr(e) {
+				found = true
+			}
+		case *FieldReferenceExpr:
+			// The aggregate plan does not look behind a field name either,
+			// and a chain of names would be walked once per mention
+			return false
+		}
+		return !found
+	})
+	return found
+}
+
 func (o *ExpressionOptimizer) tryOptimizeAndOr(expr Expression) (Expression, bool) {
 	var (
 		leftVal      bool
@@ -199,6 +217,11 @@ func (o *ExpressionOptimizer) tryOptimizeAndOr(expr Expression) (Expression, boo
 		return expr, false
 	}
 	if e.Op != And && e.Op != Or {
+		return e, false
+	}
+	if hasAggrFuncCall(e) {
+		// Dropping an operand that calls an aggregate function would turn
+		// the aggregate field into a plain one (a row per pair)
 		return e, false
 	}
 	switch left := e.Left.(type) {
